@@ -103,6 +103,31 @@ def h():
                 obs.append(Ob(f"range.{mode}.{mt}", build([INT("v")], body, setup=SETUP + head),
                               f"{mt}, every fixed-range controller, {desc}", group="range", shape=f"{mt}: {len(rr)} range controllers, bounds from the YAML: " + ", ".join(f"{n}[{lo},{hi}]" for n, lo, hi, _ in rr[:40]),
                               symbolic="v over all integers (unbounded)", timeout=240))
+            # strict assignment from an ARBITRARY stored state: the module already holds any integer w (in range or not -- lenient
+            # assignments and loaded files store out-of-range values), then v is assigned in strict mode
+            chunks = [ranges[i:i + 6] for i in range(0, len(ranges), 6)]
+            if tier == "quick":
+                chunks = [random.Random(seed * 77 + len(obs)).choice(chunks)]
+            for chunk in chunks:
+                parts = []
+                for name, lo, hi, dflt in chunk:
+                    parts.append(f"""
+    with override_raise_controller_value_errors(False):
+        mod.{name} = w
+    before = mod.{name}
+    try:
+        mod.{name} = v
+    except ControllerValueError:
+        if {lo} <= v <= {hi} or mod.{name} != before:
+            return False
+    else:
+        if not ({lo} <= v <= {hi}) or mod.{name} != v:
+            return False""")
+                body = "    mod = CLS()" + "".join(parts) + "\n    return True\n"
+                obs.append(Ob(f"range.stale.{mt}.{chunk[0][0]}", build([INT("w"), INT("v")], body, setup=SETUP + head),
+                              f"{mt}, controllers {[c_[0] for c_ in chunk]}: whatever integer w the module already stores (leniently stored values may be out of range), a strict "
+                              "assignment of v is accepted iff min <= v <= max, otherwise ControllerValueError and the stored value remains",
+                              group="range", shape=f"{mt}: {len(chunk)} range controllers", symbolic="stored w and assigned v over all integers (unbounded)", timeout=240))
         # ---- enums ------------------------------------------------------------------------
         if enums:
             parts = []
